@@ -3,6 +3,7 @@
    wrappers of get_depth_at, and barycentric interpolation on a GIVEN triangulation (scipy's LinearNDInterpolator with
    fill value 0).  The spline / Delaunay constructions themselves are parameters (Section variables). *)
 From Coq Require Import ZArith QArith Qabs Qround Bool List.
+From GS Require Import gen.GenTables.
 Import ListNotations.
 Open Scope Q_scope.
 
@@ -82,7 +83,7 @@ Section Raster.
 End Raster.
 
 (* the normalisation of pixel values *)
-Definition normalise (sixteen : bool) (v : Z) : Q := inject_Z v / (if sixteen then 65535 else 255).
+Definition normalise (sixteen : bool) (v : Z) : Q := inject_Z v / (if sixteen then uint16_max else uint8_max).
 
 (* barycentric interpolation on a given list of triangles (vertices with their heights); fill value 0 *)
 Record vtx := { vx : Q; vy : Q; vz : Q }.
